@@ -156,13 +156,16 @@ pub fn gen(prop: &str, seed: u64, index: u64, _tier: Tier) -> Case {
     }
     cfg.shell = match variant {
         "argv" => "printf %s\\n".to_string(),
-        _ => {
-            if rng.chance(1, 3) {
-                "bash -c".to_string()
-            } else {
-                String::new()
+        _ => match rng.below(6) {
+            0 | 1 => "bash -c".to_string(),
+            2 => {
+                // a shell given by a path relative to the process working directory
+                let cwd = cfg.cwd.clone().unwrap_or_else(|| base.clone());
+                p.add_file(&join(&cwd, "tools/mysh"), B::s("#!/bin/sh\nexec /bin/sh \"$@\"\n"));
+                "./tools/mysh -c".to_string()
             }
-        }
+            _ => String::new(),
+        },
     };
     if variant == "cli-guard" {
         params.insert(
@@ -239,6 +242,25 @@ pub fn run(case: &Case, ctx: &mut Ctx) -> CaseOutcome {
         None => return out,
     };
     let a = crate::spec::analyze(&case.project);
+    if cfg.shell.starts_with("./tools/mysh") {
+        // needs a scratch file system that allows executing scripts
+        tree::plant(&ctx.env.root, &case.project);
+        let cwd = cfg.cwd.clone().unwrap_or_else(|| cfg.base.clone());
+        let ok = std::process::Command::new(tree::abs(&ctx.env.root, &cwd).join("tools/mysh"))
+            .arg("-c")
+            .arg("true")
+            .stdin(std::process::Stdio::null())
+            .stdout(std::process::Stdio::null())
+            .stderr(std::process::Stdio::null())
+            .status()
+            .map(|s| s.success())
+            .unwrap_or(false);
+        if !ok {
+            ctx.stats.count("skipped.scratch_cannot_execute_scripts");
+            return out;
+        }
+        ctx.stats.count("c17.shell.relative_path");
+    }
     ctx.stats.count(&format!("c17.variant.{variant}"));
     if variant == "cli-env" || variant == "cli-guard" {
         // real binary, OS scheduling; cwd = base (the binary fixes base_dir = ".")
